@@ -41,7 +41,7 @@ def JsonRoundTrip (d : Desc) : Prop :=
 /-- `x:float = T` — descriptor of a struct with one unmasked float32 field -/
 def dFloat : Desc :=
   { insts := #[.prim .f32, .struct { tag := 1, nparams := 0, fields := [{ name := "x", ty := 0, bare := true, mask := none, tl2bit := none, isBit := false, natArgs := [] }] }],
-    names := #["float", "t"] }
+    tlnames := #["float", "t"] }
 
 /-- **L2.** −0.0 in an unmasked float field is omitted by the writer (`x != 0` is false in Go) and reads back as +0.0:
 the TL1 encoding changes. -/
@@ -81,7 +81,7 @@ def dDict : Desc :=
                                                    { name := "value", ty := 1, bare := true, mask := none, tl2bit := none, isBit := false, natArgs := [] }] },
       .dict { isTuple := false, dynamic := false, count := 0, nparams := 0, hasTL2 := false,
               elem := { name := "", ty := 2, bare := true, mask := none, tl2bit := none, isBit := false, natArgs := [] } }],
-    names := #["string", "int", "__dict_field", ""] }
+    tlnames := #["string", "int", "__dict_field", ""] }
 
 /-- **F1.** A dictionary key that is not valid UTF-8 has no JSON: the generated writer emits `{"base64":…}` in key position
 (not a JSON text — observed by the check with `encoding/json.Valid`); the model reports it as a writer error, so `json_valid`
